@@ -113,7 +113,7 @@ func (f *Formatter) formatIncludeStatement(stmt *ast.IncludeStatement) string {
 
 	buf.Reset()
 	buf.WriteString("include ")
-	buf.WriteString(stmt.Module.String())
+	buf.WriteString(f.formatExpression(stmt.Module).String())
 	buf.WriteString(";")
 
 	return buf.String()
@@ -344,7 +344,14 @@ func (f *Formatter) formatSwitchStatement(stmt *ast.SwitchStatement) string {
 
 	buf.Reset()
 	buf.WriteString("switch ")
-	buf.WriteString(strings.TrimSpace(stmt.Control.String()))
+	// Print the control expression through the expression formatter to keep the source literals
+	if v := f.formatComment(stmt.Control.Leading, " ", 0); v != "" {
+		buf.WriteString(v)
+	}
+	buf.WriteString("(" + strings.TrimSpace(f.formatExpression(stmt.Control.Expression).String()) + ")")
+	if v := f.formatComment(stmt.Control.Trailing, "", 0); v != "" {
+		buf.WriteString(" " + v)
+	}
 	buf.WriteString(" {\n")
 	for _, c := range stmt.Cases {
 		// If indent_case_labels is false, subtract 1 nest level
